@@ -1,6 +1,7 @@
 """C06 - command ring: each written command is read exactly once, intact, in order."""
 import itertools
 
+from vlib import core
 from vlib.term import z, to_coq
 from props import ringlib as R
 
@@ -25,6 +26,7 @@ RULE = ('seq: operation sequences on one ring (write lengths 0..cap/8+1, read li
         'pre-emption at every step, random schedules; the records drained at the end are judged by holds_proxy (no model run). '
         'non-trivial = seq: the writes pass the end of the data area and something is read; conc, proxy: every case')
 ASSUMPTIONS = [
+    'known finding refusal-on-stale-tail (KNOWN_FINDINGS.txt): a refusal decided by the wrap check of a caller that was overtaken between its tail read and its head re-read is reported as KNOWN-FINDING, every other unjustified refusal is a violation',
     'message type ids are the command codes AeronCommand::from_command_id maps back (1..14, 0xF01..0xF0A); 0xF9 is C14\'s business',
     'write lengths are 0..cap/8 (+1 for the TooLong stream); negative lengths belong to C16',
     'the preset head cache may be arbitrarily stale (any value in [0, head]); positions stay below 2^62',
@@ -269,6 +271,15 @@ def gen_proxy(rng, tier):
         for j in range(0, 11):
             for j2 in (1, 2, BIG):
                 cases.append(_proxy(1024, 7, [[first], [second]], [[0, j], [1, j2], [0, BIG], [1, BIG]]))
+    # commands on both sides of the ring's max message length (capacity / 8), which is below the proxy's 512-byte scratch buffer
+    # for small rings: an Ok answer must put exactly that record in front of the consumer, an Err answer nothing
+    for cap, lens in ((1024, (103, 104, 105, 200, 480)), (2048, (231, 232, 233, 480)), (4096, (480, 488, 489))):
+        for cn in lens:
+            long_pub = {'kind': 'addpub', 'excl': False, 'stream': 77, 'ck': 9, 'cn': cn}
+            long_sub = {'kind': 'addsub', 'stream': 78, 'ck': 10, 'cn': cn - 8}
+            for first, second in ((long_pub, c), (c, long_pub), (long_sub, b), (long_pub, long_sub)):
+                for j in (0, 1, 3, BIG):
+                    cases.append(_proxy(cap, 7, [[first, c], [second]], [[0, j], [1, 2], [0, BIG], [1, BIG]]))
     for i in range(120 if not big else 4000):
         nthr = rng.choice([2, 2, 3])
         k = 0
@@ -319,6 +330,28 @@ def oracle_expr(c, mode, obs):
 
 
 normalize = R.normalize
+
+_known_cache = {}
+
+
+def known_class(c, mode, obs):
+    """refusal-on-stale-tail: decided by the Coq predicate KnownClass_refusal_on_stale_tail_obs on the implementation's observation
+    (everything else holds, some InsufficientCapacity answer is not justified at any instant of its call, and every such answer
+    was decided by a caller whose tail read had been overtaken when it re-read the head)."""
+    if c.get('kind') != 'conc' or isinstance(obs, int):
+        return None
+    text = to_coq(obs)
+    if 'InsufficientCapacity' not in text:
+        return None          # cheap pre-filter: the class needs a refused write
+    key = (c['cap'], c['p0'], R.ops_coq(c['pre']), R.progs_coq(c), R.ops_coq(c['post']), text)
+    if key not in _known_cache:
+        try:
+            v = core.coq_eval('C06_known_%d' % (len(_known_cache) % 8), IMPORTS,
+                              ['KnownClass_refusal_on_stale_tail_obs %s %s %s %s %s %s' % (z(c['cap']), z(c['p0']), key[2], key[3], key[4], text)])
+            _known_cache[key] = v[0] == ('app', 'true', [])
+        except Exception:
+            _known_cache[key] = False
+    return 'refusal-on-stale-tail' if _known_cache[key] else None
 
 
 def nontrivial(c):
